@@ -97,6 +97,56 @@ func init() {
 			x.DefStrings("leaderDecodeFailure", nil)
 		}
 
+		x.Comment("cdc/service.go leaderLoop: every condition tested inside the retry loop around s.sink.Write (what can end the retrying)")
+		var conds []string
+		if fd := x.Func("cdc", "Service", "leaderLoop"); fd != nil {
+			ast.Inspect(fd.Body, func(n ast.Node) bool {
+				fs, ok := n.(*ast.ForStmt)
+				if !ok || !strings.Contains(x.Src(fs.Body), "s.sink.Write(") {
+					return true
+				}
+				inner := false
+				ast.Inspect(fs.Body, func(m ast.Node) bool {
+					if f2, ok := m.(*ast.ForStmt); ok && strings.Contains(x.Src(f2.Body), "s.sink.Write(") {
+						inner = true
+					}
+					return true
+				})
+				if inner {
+					return true // the outer loop: look inside
+				}
+				ast.Inspect(fs.Body, func(m ast.Node) bool {
+					switch t := m.(type) {
+					case *ast.IfStmt:
+						conds = append(conds, "if "+x.Src(t.Cond))
+					case *ast.CommClause:
+						if t.Comm != nil {
+							conds = append(conds, "case "+x.Src(t.Comm))
+						}
+					case *ast.SwitchStmt, *ast.TypeSwitchStmt:
+						conds = append(conds, "switch")
+					}
+					return true
+				})
+				return false
+			})
+		}
+		x.DefStrings("leaderRetryLoopConds", conds)
+		x.Comment("cdc/sink.go (*HTTPSink).Write: every condition it tests")
+		var sconds []string
+		if fd := x.Func("cdc", "HTTPSink", "Write"); fd != nil {
+			ast.Inspect(fd.Body, func(m ast.Node) bool {
+				switch t := m.(type) {
+				case *ast.IfStmt:
+					sconds = append(sconds, "if "+x.Src(t.Cond))
+				case *ast.SwitchStmt, *ast.TypeSwitchStmt:
+					sconds = append(sconds, "switch")
+				}
+				return true
+			})
+		}
+		x.DefStrings("httpSinkWriteConds", sconds)
+
 		x.Comment("internal/rarchive/flate: Compress / Decompress, statement by statement")
 		for _, fn := range []struct{ name, def string }{{"Compress", "flateCompressStmts"}, {"Decompress", "flateDecompressStmts"}} {
 			var stmts []string
